@@ -109,3 +109,49 @@ Theorem C06_written_condition_parses_any_operator :
     (abstract_rendering Q (tables_of more b) (to_simple_expr c) ++ rest) (skel Q (to_simple_expr c)) rest.
 Proof. intros Q b lv0 more. apply written_condition_parses_any. apply all_rows_safe. Qed.
 Print Assumptions C06_written_condition_parses_any_operator.
+
+(* The Chain form end to end (Proofs/ChainProofs.v): for every history of and_or_where(LogicalChainOper::And(e))
+   calls whose members are operator trees over primary operands (any binary operator), every backend, both
+   parenthesis options, the decision tables executed from the code on this run and every level for the operators
+   the dialect's table does not place:  the WHERE script the renderer writes is, member by member, the image of
+   chain_toks (a member between parentheses exactly where prepare_logical_chain_oper puts them, " AND " between
+   members);  that token list parses;  EVERY parse of it is the left-nested conjunction of the members' own trees,
+   and its Kleene value is the AND of the members. *)
+Require Import SQV.Proofs.ChainProofs.
+Theorem C06_and_chain_script :
+  forall is_alpha b T rq kw (e : Expr.expr query) (r : list (Expr.expr query)),
+  Forall (fun x => frag_any query x = true) (e :: r) ->
+  rholder is_alpha b T rq kw (HChain (map (pair false) (e :: r))) =
+  [WS (K " " ++ K kw ++ K " ")] ++
+  flat_map (tok_script query rq is_alpha b T) (W query T (List.length (e :: r)) e) ++
+  flat_map (fun x => [ws " AND "] ++ flat_map (tok_script query rq is_alpha b T) (W query T (List.length (e :: r)) x)) r.
+Proof. exact and_chain_script. Qed.
+Print Assumptions C06_and_chain_script.
+
+Theorem C06_and_chain_reads_as_conjunction :
+  forall (Q : Type) b (lv0 : binop -> nat) more (rho : Expr.expr Q -> tv) (e : Expr.expr Q) (r : list (Expr.expr Q)) rest p rest',
+  Forall (fun x => frag_any Q x = true) (e :: r) ->
+  stops (Expr.expr Q) sop (prec_any b lv0) 0 rest ->
+  P (Expr.expr Q) sop (prec_any b lv0) (rmin_any b lv0) (notp b) tern 0
+    (chain_toks Q (tables_of more b) (e :: r) ++ rest) p rest' ->
+  p = chain_tree Q e r /\ rest' = rest /\ eval3 rho (unskel Q p) = big_and (map (eval3 rho) (e :: r)).
+Proof. intros Q b lv0 more. apply and_chain_reads_as_conjunction. apply all_rows_safe. Qed.
+Print Assumptions C06_and_chain_reads_as_conjunction.
+
+Theorem C06_and_chain_parses_back :
+  forall (Q : Type) b (lv0 : binop -> nat) more (e : Expr.expr Q) (r : list (Expr.expr Q)) rest,
+  Forall (fun x => frag_any Q x = true) (e :: r) ->
+  stops (Expr.expr Q) sop (prec_any b lv0) 0 rest ->
+  P (Expr.expr Q) sop (prec_any b lv0) (rmin_any b lv0) (notp b) tern 0
+    (chain_toks Q (tables_of more b) (e :: r) ++ rest) (chain_tree Q e r) rest.
+Proof. intros Q b lv0 more. apply and_chain_parses_back. apply all_rows_safe. Qed.
+Print Assumptions C06_and_chain_parses_back.
+
+(* non-vacuity: x, a OR b, c = 1 + 2 as members: the second and third are written between parentheses *)
+Example C06_chain_example :
+  let col := fun n : N => @EColumn unit (CCol [n]) in
+  let ms := [col 120%N; EBinary (col 97%N) BOr (col 98%N);
+             EBinary (col 99%N) BEqual (EBinary (EValue (V TInt (Some (PInt 1%Z)))) BAdd (EValue (V TInt (Some (PInt 2%Z)))))] in
+  forallb (frag_any unit) ms = true /\
+  map (cparen unit (tables_of false SQLite) 3) ms = [false; true; true].
+Proof. split; vm_compute; reflexivity. Qed.
